@@ -15,7 +15,14 @@ def gen_committed(r, depth=2):
     for _ in range(1 + r.below(3)):
         k = r.below(9)
         if k < 2: parts.append(parsegen.gen_c06(r, 1 + r.below(4)))
-        elif k == 2: parts.append([r.choice(c12mod.RCOMB), c12mod.gen_rs(r), r.choice([['one', 'A'], ['seq', 'A', 'B']])])
+        elif k == 2:
+            body = r.choice([['one', 'A'], ['seq', 'A', 'B']])
+            if r.chance(1, 3):
+                # a recovering combinator around a whole list (its items run under stabilize): the enclosing recovery point
+                # must not leak into the list's own retries
+                lst = gen_list(r)
+                body = r.choice([lst, ['left', lst, ['one', 'Semi']], ['both', ['maybe', ['one', 'B']], lst]])
+            parts.append([r.choice(c12mod.RCOMB), c12mod.gen_rs(r), body])
         elif k == 3: parts.append(['stabilize', ['recoverdef', c12mod.gen_rs(r), ['one', 'B']]])
         elif k == 4 and depth > 0:
             parts.append([r.choice(['bracket', 'bracketdef', 'bracketidx', 'bracketdefidx']), ['LK', 'LP'], gen_committed(r, depth - 1), ['RK', 'RP'], []])
